@@ -125,3 +125,30 @@ def generic_refutations(run, spec, prop, replay):
                     o.note = "candidate counter-model (quantified hypotheses dropped) did not replay natively"
             continue
         run.violation(name, payload, found)
+
+
+def run_bounded(run, prop, script_name, tier, timeout=900):
+    """bounded stand-in tier (run-time contracts on the real functions, enumerated to a stated bound).
+    Its numbers go under coverage.bounded and are never added to obligations/discharged."""
+    script = os.path.join(report.ROOT, "replay", script_name)
+    res, proc = report.native_json(script, {"tier": tier, "seed": run.seed}, timeout=timeout)
+    if res is None:
+        run.engine_fault = f"bounded tier crashed: {(proc.stderr or '')[-600:]}"
+        return
+    run.bounded = {"label": "bounded (not proof)", "bound": res["bound"], "evaluations": res["evaluations"],
+                   "distinct_nontrivial": res["distinct_nontrivial"], "rule": res["rule"], "passed": not res["failures"]}
+    run.samples += res.get("samples", [])[:3]
+    known = report.open_findings(prop)
+    reported = set()
+    for f in res["failures"]:
+        cls = f.get("class")
+        kf = next((k for k in known.values() if k.get("witness_class") == cls), None)
+        if kf is not None:
+            if cls not in reported:
+                reported.add(cls)
+                run.known(f"{kf['id']}: {kf['what']}")
+            continue
+        if cls in reported:
+            continue
+        reported.add(cls)
+        run.violation("bounded/" + str(cls), {"bounded_case": f, "note": "run-time contract failed on the real function (bounded tier)"}, True)
